@@ -404,4 +404,8 @@ theorem mem_assocSet {α : Type} {k : Nat} {a' : α} : ∀ {l : List (Nat × α)
         · left; exact List.mem_cons_of_mem _ h
         · right; exact h
 
+theorem map_lastN {α β : Type} (g : α → β) (m : Nat) (l : List α) : (lastN m l).map g = lastN m (l.map g) := by
+  unfold lastN
+  rw [List.map_drop, List.length_map]
+
 end CR.Cache
